@@ -408,6 +408,33 @@ func runC17(c *Ctx) {
 	if u := c.unit("C17-D1", c17pkg+"SortableStrings.Less"); u != nil {
 		r.ReturnFormula("C17-D1", u, "recv[p0] < recv[p1]", an.Equiv)
 	}
+	if u := c.unit("C17-D5", c17pkg+"moveIfUnbalanced"); u != nil {
+		// load bookkeeping follows the layout: a partition leaves the most loaded node's replica list only where its
+		// replica was actually moved away (not where only the leader role was exchanged), and enters the least loaded
+		// node's list only there
+		mv := u.Match(an.Call(c17pkg + "replaceReplicaWith"))
+		n := 0
+		for _, s := range u.Sites {
+			if s.Kind != flow.SStore || s.RHS == nil {
+				continue
+			}
+			lt := u.C.Term(s.LHS)
+			if lt != "p2[max.name]" && lt != "p2[min.name]" {
+				continue
+			}
+			n++
+			r.Check("C17-D5", u.Name+": the replica-load map changes only together with a move of the replica ("+lt+")", u.Pos(s.Pos), pathFree(u, s, mv),
+				"the load map says the node lost (or got) the partition although the layout was not changed on this path: a later balance step places the partition on a node that already holds it")
+		}
+		r.Min("C17-D5", n, 4, "replica-load map updates in moveIfUnbalanced")
+	}
+	if u := c.unit("C17-D5", c17pkg+"fillPartitionMapV2"); u != nil {
+		// each partition's list is the freshly made list of exactly `replica` slots
+		r.StoreValues("C17-D5", u, an.StoreTerm("partitionNodes[pid_2]"), []string{"nlist"}, 1)
+		r.StoreValues("C17-D5", u, an.LocalStore("nlist"), []string{"make([]string, p2)"}, 1)
+		r.Guard("C17-D5", u, an.StoreTerm("nlist[j]"), "j < p2", an.GuardOpts{Min: 4})
+		r.StoreValues("C17-D5", u, an.LocalStore("partitionNodes"), []string{"make([][]string, p1)", "TUPLE pdnode_coord.moveIfUnbalanced(nameIndexMap, newNodesLeaderMap, newNodesReplicaMap, partitionNodes) #0"}, 1)
+	}
 	if u := c.unit("C17-D5", c17pkg+"replaceReplicaWith"); u != nil {
 		st := u.Match(an.StoreTerm("p0[i]"))
 		ok := len(st) == 1 && u.C.Term(st[0].RHS) == "p2" && flow.Implies(u.SitePC(st[0]), c.W.Parse("p0[i] == p1")).Holds
